@@ -93,7 +93,8 @@ pub fn gen_size(rng: &mut Rng, big: bool) -> usize {
 }
 
 fn gen_bits_string(rng: &mut Rng, n: usize) -> String {
-    match rng.below(6) {
+    match rng.below(7) {
+        6 => crate::gen::gen_word_pattern_bits(rng, n).into_iter().map(|b| if b { '1' } else { '0' }).collect(),
         // runs (sparse and dense regions, as DArray cares)
         0 => {
             let mut s = String::with_capacity(n);
@@ -283,7 +284,10 @@ pub fn gen_spec(rng: &mut Rng, tier: Tier) -> Spec {
         _ => {
             let kind = *rng.pick(&[Flat::QVector, Flat::RSQVector256, Flat::RSQVector512]);
             let n = gen_size(rng, tier == Tier::Thorough);
-            let style = rng.below(3);
+            let style = rng.below(4);
+            if style == 3 {
+                return Spec::Quads { kind, syms: crate::gen::gen_word_pattern_quads(rng, n) };
+            }
             let syms = (0..n)
                 .map(|i| match style {
                     0 => rng.below(4) as u8,
